@@ -34,6 +34,7 @@ type ioArtefact struct {
 	// for CAR formats: byte offsets (in the raw CAR stream) that are block boundaries, with the number of blocks before them
 	Boundaries map[int]int
 	Tokens     [][]byte // sealed tokens inside a container, in stream order
+	Huge       bool     // > 64 KiB: positional faults are enumerated at every offset, the E3 search is skipped
 }
 
 func viewString(tok any, c *cid.Cid) string {
@@ -60,6 +61,8 @@ var ioTokenSpecs = map[string]TokSpec{
 	"dlg":  {Kind: "dlg", Alg: "ed25519", Opts: map[string]string{"pol": "eq", "nonce": "12", "meta": "k=str-ascii"}},
 	"inv":  {Kind: "inv", Alg: "ed25519", Opts: map[string]string{"args": "k=int1", "nonce": "12", "iat": "whole"}},
 	"dlg3": {Kind: "dlg", Alg: "ed25519", Key: 1, Opts: map[string]string{"nonce": "64", "sub": "other", "cmd": "/a/b"}},
+	"dlgbig":  {Kind: "dlg", Alg: "ed25519", Opts: map[string]string{"nonce": "64", "meta": "k=str-600"}},
+	"dlghuge": {Kind: "dlg", Alg: "ed25519", Key: 2, Opts: map[string]string{"nonce": "12", "meta": "k=bytes-70k"}},
 	"dlg2": {Kind: "dlg", Alg: "p256", Opts: map[string]string{"nonce": "12", "sub": "other"}},
 	"inv2": {Kind: "inv", Alg: "secp256k1", Opts: map[string]string{"nonce": "12", "iat": "none", "prf": "3"}},
 }
@@ -144,11 +147,17 @@ func buildContainer(format string, names []string) ioArtefact {
 
 func ioArtefacts() []ioArtefact {
 	var r []ioArtefact
-	for _, n := range []string{"dlg", "inv"} {
+	for _, n := range []string{"dlg", "inv", "dlgbig"} {
 		t := ioToken(n)
-		r = append(r, ioArtefact{Name: n + "-sealed", Format: "sealed", Data: t.Sealed}.fix(n))
-		r = append(r, ioArtefact{Name: n + "-json", Format: "json", Data: t.JSON}.fix(n))
+		kind := n
+		if n == "dlgbig" {
+			kind = "dlg"
+		}
+		r = append(r, ioArtefact{Name: n + "-sealed", Format: "sealed", Data: t.Sealed}.fix(kind))
+		r = append(r, ioArtefact{Name: n + "-json", Format: "json", Data: t.JSON}.fix(kind))
 	}
+	// a CAR with one block above 64 KiB between two small ones (size thresholds in section readers)
+	r = append(r, buildContainer("car", []string{"dlg", "dlghuge"}).named("ctn-car-huge"), buildContainer("car64", []string{"dlghuge"}).named("ctn-car64-huge"), buildContainer("cbor", []string{"dlghuge", "inv"}).named("ctn-cbor-huge"))
 	for _, f := range []string{"cbor", "car", "cbor64", "car64"} {
 		r = append(r, buildContainer(f, []string{"dlg", "inv", "dlg3"}))
 		r = append(r, buildContainer(f, []string{"dlg"}))
@@ -157,9 +166,24 @@ func ioArtefacts() []ioArtefact {
 	return r
 }
 
+func (a ioArtefact) named(n string) ioArtefact {
+	a.Name = n
+	a.Huge = true
+	return a
+}
+
 func (a ioArtefact) fix(kind string) ioArtefact {
 	a.Kind = kind
 	return a
+}
+
+func c18NearBoundary(a ioArtefact, k int) bool {
+	for b := range a.Boundaries {
+		if k > b-40 && k < b+40 {
+			return true
+		}
+	}
+	return false
 }
 
 // ---- reader APIs ----
@@ -333,6 +357,9 @@ func c18ReadSub() *engine.Sub {
 					if !emit(&c18ReadCase{Art: a.Name, API: api.Name, Mode: "pos-error-with-data", At: -1}) {
 						return
 					}
+					if a.Huge {
+						continue
+					}
 					if !emit(&c18ReadCase{Art: a.Name, API: api.Name, Mode: "env"}) {
 						return
 					}
@@ -386,6 +413,11 @@ func c18ReadSub() *engine.Sub {
 				mode := strings.TrimPrefix(cs.Mode, "pos-")
 				for k := lo; k <= hi; k++ {
 					for _, ch := range []int{0, 1} {
+						if a.Huge && (ch == 1 || (k%97 != 0 && k > 600 && k < len(a.Data)-600 && !c18NearBoundary(a, k))) {
+							// huge artefacts: every offset within 600 bytes of either end and of every section
+							// boundary, every 97th offset inside the big section body (its content is opaque to the reader)
+							continue
+						}
 						pr := &engine.PosReader{Data: a.Data, Chunk: ch, FailAt: k, Mode: mode}
 						got, err := api.Stream(pr)
 						ctx.Eval(1)
@@ -516,7 +548,7 @@ type tokenWriter interface {
 
 func writerAPIs() []writerAPI {
 	var r []writerAPI
-	for _, n := range []string{"dlg", "inv"} {
+	for _, n := range []string{"dlg", "inv", "dlgbig"} {
 		st := ioToken(n)
 		tw := st.Tok.(tokenWriter)
 		key := st.Key.Priv
